@@ -427,7 +427,7 @@ func exhaust(t *rapid.T, sc *scenario, budget int) (n, nontrivial int, complete 
 }
 
 func TestTwoProcessesExhaustive(t *testing.T) {
-	kit.Check(t, 16, 640, func(t *rapid.T) {
+	kit.Check(t, 60, 640, func(t *rapid.T) {
 		sc := drawScenario(t, 2)
 		if kit.Thorough() && rapid.IntRange(0, 3).Draw(t, "second") == 0 {
 			sc.encrypts[rapid.IntRange(0, 1).Draw(t, "who")] = 2
@@ -444,7 +444,7 @@ func TestTwoProcessesExhaustive(t *testing.T) {
 }
 
 func TestThreeProcessesSampled(t *testing.T) {
-	kit.Check(t, 200, 24000, func(t *rapid.T) {
+	kit.Check(t, 800, 24000, func(t *rapid.T) {
 		sc := drawScenario(t, 3)
 		if rapid.IntRange(0, 2).Draw(t, "second") == 0 {
 			sc.encrypts[rapid.IntRange(0, 2).Draw(t, "who")] = 2
